@@ -31,7 +31,18 @@ def frontend_vocabulary(F):
     bi = set()
     # the builtin-name table, by role: frontend functions that answer a TsBuiltIn from a match over string literals
     g = [x for x in F.hir if F.fns.get(x) is not None and "TsBuiltIn" in (F.fns[x].output or "") and "/src/frontend/" in (F.fns[x].file or "")]
+    # ... and the name tables those functions consult (a sub-table split off into its own function, e.g. the typed
+    # array names): local callees, one level
+    more = set()
     for gid in g:
+        f = F.fns[gid]
+        for n in hwalk(F.hir[gid]["body"]):
+            if n["k"] in ("Call", "MethodCall"):
+                cal = n.get("callee") if n["k"] == "Call" else (n.get("resolved") or n.get("callee"))
+                tg = F._callee_gid(f.crate, cal) if cal else None
+                if tg in F.hir and F.fns.get(tg) is not None and "/src/frontend/" in (F.fns[tg].file or ""):
+                    more.add(tg)
+    for gid in list(g) + sorted(more - set(g)):
         for n in hwalk(F.hir[gid]["body"]):
             if n["k"] == "Match":
                 for a in n["arms"]:
@@ -42,14 +53,89 @@ def frontend_vocabulary(F):
     return kw, bi
 
 
-def string_constants(fn):
+def _hole_values(mod, fn_name, fn, e):
+    """string values a template hole can take when it is a parameter that every caller passes as a string literal
+    (or a local const with a literal initialiser); None when unknown"""
+    e = unparen(e)
+    if e.get("type") == "StringLiteral":
+        return {e["value"]}
+    if e.get("type") != "Identifier":
+        return None
+    params = ts_common.fn_params(fn)
+    if e["value"] in params and fn_name:
+        idx = params.index(e["value"])
+        vals = set()
+        short = fn_name.rsplit(".", 1)[-1]
+        for n in walk(mod.module):
+            if n["type"] != "CallExpression":
+                continue
+            c = unparen(n["callee"])
+            nm = c.get("value") if c.get("type") == "Identifier" else (c["property"].get("value") if c.get("type") == "MemberExpression" and c["property"]["type"] == "Identifier" else None)
+            if nm != short or len(n["arguments"]) <= idx:
+                continue
+            a = unparen(n["arguments"][idx]["expression"])
+            if a.get("type") == "StringLiteral":
+                vals.add(a["value"])
+            elif a.get("type") == "Identifier" and a["value"] == e["value"] and any(x is n for x in walk(fn)):
+                continue        # the function handing its own parameter on (recursion)
+            else:
+                return None
+        return vals or None
+    for n in walk(fn):
+        if n["type"] == "VariableDeclarator" and n["id"].get("value") == e["value"] and n.get("init") is not None:
+            i = unparen(n["init"])
+            if i.get("type") == "StringLiteral":
+                return {i["value"]}
+    return None
+
+
+def string_constants(fn, mod=None, fn_name=None):
+    """(text, node) for every string constant the function can print.  Template quasis are taken piecewise, except that
+    a word glued to a hole (`${kind}Format<`) is only judged as a whole: with the values the hole can take when they
+    are known (a parameter every caller passes as a literal), not at all otherwise.  String literals that are handed
+    to a local helper as such a parameter are judged there, glued, and skipped here."""
     out = []
+    consumed = set()
+    if mod is not None:
+        for n in walk(fn):
+            if n["type"] != "CallExpression":
+                continue
+            r = tsast.resolve_local_call(mod, None, n) if unparen(n["callee"]).get("type") == "Identifier" else None
+            if r is None:
+                continue
+            hfn = r[0]
+            hp = ts_common.fn_params(hfn)
+            holes = {unparen(x).get("value") for t in walk(hfn) if t["type"] == "TemplateLiteral" for x in t["expressions"] if unparen(x).get("type") == "Identifier"}
+            for i, a in enumerate(n["arguments"]):
+                ae = unparen(a["expression"])
+                if ae.get("type") == "StringLiteral" and i < len(hp) and hp[i] in holes:
+                    consumed.add(id(ae))
+    for n in walk(fn):
+        if n["type"] == "TsLiteralType":
+            consumed.add(id(n.get("literal")))      # a literal TYPE in an annotation prints nothing
     for n in walk(fn):
         if n["type"] == "StringLiteral":
-            out.append((n["value"], n))
+            if id(n) not in consumed:
+                out.append((n["value"], n))
         elif n["type"] == "TemplateLiteral":
-            for q in n["quasis"]:
-                out.append((q.get("cooked") or q.get("raw") or "", n))
+            qs = [q.get("cooked") or q.get("raw") or "" for q in n["quasis"]]
+            variants = [""]
+            for i, q in enumerate(qs):
+                variants = [v + q for v in variants]
+                if i < len(n["expressions"]):
+                    nxt = qs[i + 1] if i + 1 < len(qs) else ""
+                    glued = bool(re.search(r"[A-Za-z0-9_]$", q)) or bool(re.match(r"[A-Za-z0-9_]", nxt))
+                    vals = _hole_values(mod, fn_name, fn, n["expressions"][i]) if (glued and mod is not None) else None
+                    if not glued:
+                        variants = [v + " " for v in variants]
+                    elif vals is not None and len(vals) * len(variants) <= 16:
+                        variants = [v + x for v in variants for x in sorted(vals)]
+                    else:
+                        # unknown glue: drop the partial word on both sides of the hole
+                        variants = [re.sub(r"[A-Za-z0-9_]+$", "", v) + " \x00" for v in variants]
+            for v in variants:
+                v = re.sub(r"\x00[A-Za-z0-9_]*", " ", v)
+                out.append((v, n))
     return out
 
 
@@ -179,7 +265,7 @@ def run(cx, rep):
                if "describeTypeExpr" in c.methods and c.methods["describeTypeExpr"]["function"].get("body") is not None]
     targets += [(k, v, None) for k, v in helper_fns]
     for name, fn, cn in targets:
-        for val, node in string_constants(fn):
+        for val, node in string_constants(fn, mod, name):
             if any(t["type"] == "ThrowStatement" and any(x is node for x in walk(t)) for t in walk(fn)):
                 continue
             for tok in re.findall(r"[A-Za-z_][A-Za-z0-9_]*", val):
@@ -286,36 +372,52 @@ def run(cx, rep):
     rep.floor("C15.7", "children walks of the reference-counting pass", n_walk, 1)
     # ---------------------------------------------------------------- C15.4
     rep.rule("C15.4", "recursion guards and single declaration")
+    def marks_around(fn, site):
+        """sets S with `S.add(k)` before and `S.delete(k)` after `site` in fn, and S.has(..) known false at the site"""
+        ka = ts_common.known_atoms(fn, site)
+        not_in = {a_.split(".has(")[0] for a_, v_ in ka.items() if ".has(" in a_ and v_ is False}
+        added, deleted = set(), set()
+        for n in walk(fn):
+            mc = method_call(n) if n["type"] == "CallExpression" else None
+            if not mc or not mc[2]:
+                continue
+            if mc[1] == "add" and n["span"]["end"] <= site["span"]["start"]:
+                added.add(s(mc[0]))
+            if mc[1] == "delete" and n["span"]["start"] >= site["span"]["end"]:
+                deleted.add(s(mc[0]))
+        return (added & deleted) & not_in, not_in
     for cn, c in sorted(fam.classes.items()):
         m = c.methods.get("collectDescribeRefs")
         if m:
             fn = m["function"]
-            txt = "".join(mod.text(fn).split())
             rec = [n for n in walk(fn) if n["type"] == "CallExpression" and s(n["callee"]) == "collectDescribeRefs"]
             # the descent runs only when the name is neither being described nor already described (however the two
-            # tests are spelled: two guards, one `||` guard, a positive `if (!a && !b) {..}`)
-            ka = ts_common.known_atoms(fn, rec[0]) if len(rec) == 1 else {}
-            not_active = any(re.search(r"activeRefs\.has\(", a_) and v_ is False for a_, v_ in ka.items())
-            not_visited = any(re.search(r"visitedRefs\.has\(", a_) and v_ is False for a_, v_ in ka.items())
-            ok = len(rec) == 1 and not_active and not_visited and \
-                "activeRefs.add(" in txt and "activeRefs.delete(" in txt and txt.index("activeRefs.add(") < txt.index("collectDescribeRefs(this") < txt.index("activeRefs.delete(")
-            rep.ob("C15.4", "%s.collectDescribeRefs" % cn, ok, "%s.collectDescribeRefs must test activeRefs/visitedRefs before descending and add/delete the active mark around the recursive call" % cn, mod.loc(fn))
+            # tests are spelled), and the being-described mark is set before and cleared after the descent
+            paired, not_in = marks_around(fn, rec[0]) if len(rec) == 1 else (set(), set())
+            ok = len(rec) == 1 and len(paired) >= 1 and len(not_in) >= 2
+            rep.ob("C15.4", "%s.collectDescribeRefs" % cn, ok, "%s.collectDescribeRefs must test the active and the visited set before descending and add/delete the active mark around the recursive call (marks paired around the descent: %s; sets known not to contain the name: %s)" % (cn, sorted(paired), sorted(not_in)), mod.loc(fn))
         d = c.methods.get("describe")
         if d and "definitions" in mod.text(d["function"]):
             fn = d["function"]
             assigns = [n for n in walk(fn) if n["type"] == "AssignmentExpression" and ".definitions[" in s(n["left"])]
             ok = len(assigns) >= 1
+            ok2 = len(assigns) >= 1
             for a in assigns:
-                guarded = any(i["type"] == "IfStatement" and any(x is a for x in walk(i["consequent"])) and re.search(r"definitions\[\w+\]==null|definitions\[\w+\]===undefined", s(i["test"]).replace("(", "").replace(")", ""))
-                              for i in walk(fn))
-                ok = ok and guarded
-            rep.ob("C15.4", "%s.describe/single-declaration" % cn, ok, "%s.describe must assign ctx.definitions[name] only under a `== null` guard" % cn, mod.loc(fn))
-            txt = "".join(mod.text(fn).split())
-            ok2 = "activeRefs.has(" in txt and "activeRefs.add(" in txt and "activeRefs.delete(" in txt
-            rep.ob("C15.4", "%s.describe/recursion-guard" % cn, ok2, "%s.describe must guard the recursive description with activeRefs" % cn, mod.loc(fn))
+                ka = ts_common.known_atoms(fn, a)
+                lhs = s(a["left"])
+                absent = any((a_.replace("(", "").replace(")", "") in (lhs + "==null", lhs + "===undefined") and v_ is True) or
+                             (a_.replace("(", "").replace(")", "") in (lhs + "!=null", lhs + "!==undefined") and v_ is False) for a_, v_ in ka.items())
+                ok = ok and absent
+                paired, _ = marks_around(fn, a["right"])
+                ok2 = ok2 and len(paired) >= 1
+            rep.ob("C15.4", "%s.describe/single-declaration" % cn, ok, "%s.describe must assign ctx.definitions[name] only where it is known to be absent (`== null`)" % cn, mod.loc(fn))
+            rep.ob("C15.4", "%s.describe/recursion-guard" % cn, ok2, "%s.describe must describe the target of a shared reference only when the name is not being described, and mark it while it is" % cn, mod.loc(fn))
     # ---------------------------------------------------------------- C15.8
     rep.rule("C15.8", "describe methods read every constructor argument they read on the reviewed tree")
     ts_common.field_matrix_rule(cx, rep, "C15.8", ['describeTypeExpr', 'describeChildren', 'describe'])
+    # ---------------------------------------------------------------- C15.9
+    rep.rule("C15.9", "the describe methods: every element of an array-valued constructor argument is accounted for (no fixed-size prefix)")
+    ts_common.truncation_rule(cx, rep, "C15.9", ['describeTypeExpr', 'describeChildren', 'describe'])
 
 
 def _runtype_fields(fam, cn):
@@ -341,7 +443,7 @@ def describe_children_rule(cx, rep, fam, mod):
         read = set()
         for m in (dte, dsc):
             if m and m["function"].get("body") is not None and (m is dte or cn in ("OptionalFieldRuntype",) or "describe" in fam.classes[cn].methods):
-                read |= {f for f in ts_common.this_fields_read(m["function"]) if f in rfs}
+                read |= {f for f in ts_common.this_fields_read(m["function"], mod, cn) if f in rfs}
         _, dch = fam.resolve_method(cn, "describeChildren")
         if dch is None or not read:
             continue
